@@ -1539,6 +1539,9 @@ def run_ext(inp):
 # sizes) the REAL builder's one-step circuit is turned into its unitary U(dt) with qiskit `Operator` for dt, dt/2, dt/4 and
 #   value tie   trotter-deriv-step-*  the gate list of that very one-step circuit vs the model's step (driver request `circ … 1`): the
 #               unitary that is differentiated below is the unitary of the gate list the theorems talk about
+#               trotter-deriv-ham-*   (chains) entries of the REAL `MPO.ising / MPO.heisenberg(...).to_matrix()` — the H used below — vs the
+#               path sum of the model's automaton for the terms captured at `from_pauli_sum`, at the digits of (row, column): the tie of
+#               `ising_circuit_mpo_same_hamiltonian` / `heisenberg_circuit_mpo_same_hamiltonian` (driver request `fsmpath`)
 #   oracle      trotter-deriv-*       the derivative the theorem states is the derivative the code has:
 #               (a) spin builders: Σ (θ_k/2)·P_k over the rotation gates of the real step = dt·H  (`…_step_generators` + `genSum_eq_ham`
 #                   on the real gate list; H = MPO.ising / MPO.heisenberg .to_matrix() where a builder of the same name exists, an
@@ -1596,6 +1599,7 @@ def xt_setup(inp, rng):
     if b in ("ising", "heis"):
         L, per = inp["L"], inp["per"]
         bonds = chain_bonds(L, per)
+        rec = []
         if L == 2 and per:
             bonds = [(0, 1), (0, 1)]  # both builders count the wrap bond of a 2-chain twice
         if b == "ising":
@@ -1604,7 +1608,8 @@ def xt_setup(inp, rng):
             one = lambda dt: cl.create_ising_circuit(L, J, g, dt, 1, periodic=per)  # noqa: E731
             many = lambda T, N: cl.create_ising_circuit(L, J, g, T / N, N, periodic=per)  # noqa: E731
             req = lambda dt: f"circ ising {L} {int(per)} 1 | {ib.fracs([J, g, dt])}"  # noqa: E731
-            mpo = None if (L == 1 and per) else MPO.ising(L, J, g, bc="periodic" if per else "open")
+            with capture_from_pauli_sum(rec):
+                mpo = None if (L == 1 and per) else MPO.ising(L, J, g, bc="periodic" if per else "open")
         else:
             Jx, Jy, Jz = coup(rng), coup(rng), coup(rng)
             h = 0.0 if (inp.get("h0") or rng.random() < 0.25) else coup(rng)
@@ -1612,8 +1617,10 @@ def xt_setup(inp, rng):
             one = lambda dt: cl.create_heisenberg_circuit(L, Jx, Jy, Jz, h, dt, 1, periodic=per)  # noqa: E731
             many = lambda T, N: cl.create_heisenberg_circuit(L, Jx, Jy, Jz, h, T / N, N, periodic=per)  # noqa: E731
             req = lambda dt: f"circ heis {L} {int(per)} 1 | {ib.fracs([Jx, Jy, Jz, h, dt])}"  # noqa: E731
-            mpo = None if (L == 1 and per) else MPO.heisenberg(L, Jx, Jy, Jz, h, bc="periodic" if per else "open")
+            with capture_from_pauli_sum(rec):
+                mpo = None if (L == 1 and per) else MPO.heisenberg(L, Jx, Jy, Jz, h, bc="periodic" if per else "open")
         hsrc = "explicit Kronecker sum"
+        ham_case = None
         if mpo is not None:  # the Hamiltonian builder of the same name IS the documented Hamiltonian (site 0 leftmost -> qiskit order)
             hm = np.asarray(mpo.to_matrix(), dtype=complex)
             perm = np.array([int(format(k, f"0{L}b")[::-1], 2) for k in range(2**L)])
@@ -1623,7 +1630,18 @@ def xt_setup(inp, rng):
                 return None, f"{b}(L={L}, periodic={per}): MPO builder of the same name differs from the documented Hamiltonian by {dd:.2e}"
             H = Hm
             hsrc = "MPO." + ("ising" if b == "ising" else "heisenberg") + ".to_matrix()"
-        return (one, many, H, req, f"{b}(L={L}, periodic={per})", f"{b}:{L}:{per}", hsrc), None
+            if rec:  # entries of the real to_matrix() vs the automaton path sum of the captured terms at the digits of (row, column)
+                pairs = []
+                for _ in range(6):
+                    i = rng.randrange(2**L)
+                    r = rng.random()
+                    j = i if r < 0.3 else (i ^ (1 << rng.randrange(L)) if r < 0.7 else rng.randrange(2**L))
+                    pairs.append((i, j))
+                digs = lambda k: [int(x) for x in format(k, f"0{L}b")]  # noqa: E731  (site 0 most significant)
+                ham_case = {"req": f"fsmpath {L} | {terms_string(rec[0][0])} | " + " ; ".join(" ".join(map(str, digs(i) + digs(j))) for i, j in pairs),
+                            "impl": " ".join(cfmt(hm[i, j]) for i, j in pairs), "oracle": None, "kind": "trotter-deriv-ham-" + b,
+                            "sig": f"tderivham:{b}:{L}:{per}", "nontrivial": any(abs(hm[i, j]) > 0 for i, j in pairs)}
+        return (one, many, H, req, f"{b}(L={L}, periodic={per})", f"{b}:{L}:{per}", hsrc, ham_case), None
     if b in ("ising2d", "heis2d"):
         R, C = inp["R"], inp["C"]
         nq = R * C
@@ -1641,7 +1659,7 @@ def xt_setup(inp, rng):
             one = lambda dt: cl.create_2d_heisenberg_circuit(R, C, Jx, Jy, Jz, h, dt, 1)  # noqa: E731
             many = lambda T, N: cl.create_2d_heisenberg_circuit(R, C, Jx, Jy, Jz, h, T / N, N)  # noqa: E731
             req = lambda dt: f"circ heis2d {R} {C} 1 | {ib.fracs([Jx, Jy, Jz, h, dt])}"  # noqa: E731
-        return (one, many, H, req, f"{b}({R}x{C})", f"{b}:{R}x{C}", "explicit Kronecker sum"), None
+        return (one, many, H, req, f"{b}({R}x{C})", f"{b}:{R}x{C}", "explicit Kronecker sum", None), None
     u, t, mu = coup(rng), coup(rng), coup(rng)
     split = rng.random() < 0.5  # N sub-steps either as num_trotter_steps = N, timesteps = 1 or the other way round
     if b == "fh1d":
@@ -1651,14 +1669,14 @@ def xt_setup(inp, rng):
         many = (lambda T, N: cl.create_1d_fermi_hubbard_circuit(L, u, t, mu, N, T, 1)) if split else \
             (lambda T, N: cl.create_1d_fermi_hubbard_circuit(L, u, t, mu, 1, T / N, N))  # noqa: E731
         req = lambda dt: f"circ fh1d {L} 1 1 | {ib.fracs([u, t, mu, dt])}"  # noqa: E731
-        return (one, many, H, req, f"fermi_hubbard_1d(L={L})", f"fh1d:{L}:{split}", "explicit Kronecker sum"), None
+        return (one, many, H, req, f"fermi_hubbard_1d(L={L})", f"fh1d:{L}:{split}", "explicit Kronecker sum", None), None
     Lx, Ly = inp["Lx"], inp["Ly"]
     H, _ = fh_h_2d(Lx, Ly, u, t, mu)
     one = lambda dt: cl.create_2d_fermi_hubbard_circuit(Lx, Ly, u, t, mu, 1, dt, 1)  # noqa: E731
     many = (lambda T, N: cl.create_2d_fermi_hubbard_circuit(Lx, Ly, u, t, mu, N, T, 1)) if split else \
         (lambda T, N: cl.create_2d_fermi_hubbard_circuit(Lx, Ly, u, t, mu, 1, T / N, N))  # noqa: E731
     req = lambda dt: f"circ fh2d {Lx} {Ly} 1 1 | {ib.fracs([u, t, mu, dt])}"  # noqa: E731
-    return (one, many, H, req, f"fermi_hubbard_2d(Lx={Lx}, Ly={Ly})", f"fh2d:{Lx}x{Ly}:{split}", "explicit Kronecker sum"), None
+    return (one, many, H, req, f"fermi_hubbard_2d(Lx={Lx}, Ly={Ly})", f"fh2d:{Lx}x{Ly}:{split}", "explicit Kronecker sum", None), None
 
 
 def xt_spec(name, value, bound):
@@ -1677,7 +1695,7 @@ def run_trotter_deriv(inp):
     setup, bad = xt_setup(inp, rng)
     if setup is None:
         return {"req": None, "impl": None, "oracle": ok([bad]), "kind": "trotter-deriv-" + b, "sig": f"tderiv:{b}:mpo"}
-    one, many, H, req, what, sig, hsrc = setup
+    one, many, H, req, what, sig, hsrc, ham_case = setup
     dim = H.shape[0]
     eye = np.eye(dim, dtype=complex)
     hn = float(np.linalg.norm(H, 2))
@@ -1771,7 +1789,7 @@ def run_trotter_deriv(inp):
         if gerrs[2] > 0.5:
             probs.append(f"{what}: the N-step error stays large: {gerrs[2]:.3e} at N = {4 * n0}")
     orc = {"req": None, "impl": None, "oracle": ok(probs, detail), "kind": "trotter-deriv-" + b, "sig": f"tderiv:{sig}"}
-    return [tie, orc]
+    return [tie, orc] + ([ham_case] if ham_case else [])
 
 
 def gen_all(rng, tier):
